@@ -36,7 +36,7 @@ ANCHORS = ['io:from_json', 'io:from_yaml', 'io:from_yaml_all', 'io:write_json', 
            'classes:PaneBase.write_json', 'classes:PaneBase.write_yaml', 'classes:PaneBase.from_json', 'classes:PaneBase.from_yaml',
            'classes:PaneBase.from_yaml_all', 'classes:PaneBase.from_jsons', 'classes:PaneBase.from_yamls']
 MIN_COUNTERS = {'quick': {'round_trips': 8000, 'paths_opened_by_pane': 2500, 'caller_streams_checked': 3000, 'yaml_all_checked': 600,
-                          'returned_strings_checked': 300, 'non_ascii_payloads': 1200, 'failed_reads_checked': 300, 'offset_streams_checked': 300}}
+                          'returned_strings_checked': 300, 'non_ascii_payloads': 1200, 'failed_reads_checked': 300, 'offset_streams_checked': 300, 'foreign_encoding_streams_checked': 200}}
 
 ALLOW = ('int', 'float', 'str', 'bool', 'none', 'list', 'seq', 'dict', 'tup', 'union', 'dc', 'enum', 'lit', 'fraction', 'decimal',
          'date', 'time', 'datetime', 'path', 'deque', 'sub', 'cc', 'set', 'bytes')
